@@ -80,6 +80,14 @@ def run(ctx):
             if vn:
                 b = bd.ev_at(vn[0], f.cfg.point(c))
                 ok = b.hi == 0
+            if not ok and f.static:
+                # a static helper of the I/O layer that holds the system call: the fact is owed by its callers, at each call
+                sites = [(g, cc) for g in prog.lib_fns() if g.file == f.file and g.name != f.name for cc in g.calls(f.name)]
+                def site_ok(g, cc):
+                    gv = [n for n in g.walk() if n['k'] == 'MemberExpr' and g.s(n) == 'psf->virtual_io']
+                    pt_ = g.cfg.point(cc)
+                    return pt_ is None or (bool(gv) and Bounds(prog, g, eff).ev_at(gv[0], pt_).hi == 0)
+                ok = bool(sites) and all(site_ok(g, cc) for g, cc in sites)
             ctx.ob('ROUTE', key, ok, f.loc(c), '%s on the descriptor %s' % (c['callee'], 'only with virtual_io == 0' if ok else 'reachable WITHOUT the virtual-I/O route having been taken first'), None)
 
     # ------------------------------------------------------------------ FD-OWN
